@@ -30,5 +30,19 @@ int main() {
       if (best > 0) lost++;
     }
   }
+  // Second instance: a 4-sided pyramid. SmoothOut marks two quads whose diagonals
+  // both end at the apex (valence 4 - 2 diagonals = 2 edges left); RefineToLength loses the apex.
+  {
+    Manifold pyr = Manifold::Cylinder(2.7162423252411627, 1.4652513608433604, 0, 4, false);
+    Manifold r = pyr.SmoothOut(52.5, 0).RefineToLength(1.0956216485112105);
+    MeshGL64 o = r.GetMeshGL64();
+    double best = 1e9;
+    for (size_t i = 0; i < o.vertProperties.size() / o.numProp; i++) {
+      double dx = o.vertProperties[o.numProp * i], dy = o.vertProperties[o.numProp * i + 1], dz = o.vertProperties[o.numProp * i + 2] - 2.7162423252411627;
+      best = std::min(best, std::sqrt(dx * dx + dy * dy + dz * dz));
+    }
+    printf("pyramid.SmoothOut(52.5,0).RefineToLength(1.0956): %zu verts; apex (0,0,2.716): nearest output vertex at distance %.6g%s\n", r.NumVert(), best, best > 0 ? "   <-- LOST" : "");
+    if (best > 0) lost++;
+  }
   return lost ? 1 : 0;
 }
